@@ -238,15 +238,42 @@ def run(ctx, rep):
             rep.sample({'program': p.source, 'ground_truth': p.describe()})
     rep.coverage['programs'] = len(progs)
     rep.coverage['distribution'] = dict(sorted(hist.items())[:400])
+    # ---- the grammar of Model/Exec.v (theorems C05_walker_is_absint, C05_flag_sound) ----
+    import execcheck
+    stats, bad = execcheck.run(ctx.rng('exec').randrange(10 ** 6), 300 if ctx.quick else 3000)
+    rep.coverage.update(stats)
+    rep.evaluations += stats['exec_programs']
+    for b in bad:
+        if b['kind'] == 'flags' and b.get('concrete'):
+            c = b['concrete']
+            rep.violation('C05:flag-unsound', c['problem'] + '\n' + c['source'],
+                          {'kind': 'exec-grammar', 'program': b['program'], 'source': c['source'], 'site': c['site']})
+        else:
+            rep.corr_break('exec-grammar ' + b['kind'], b['program'] + ' / ' + b.get('source', ''),
+                           b.get('model_flags', b.get('model_tree', b.get('problem'))),
+                           b.get('impl_flags', b.get('real_tree', b.get('real_paths'))))
     rep.assumptions = [
         'star arguments that are not the pristine *args/**kwargs are values chosen by the program (angelic): a call counts as honoured when some choice of them lets it run',
         'loops, async def, except-as, import-as, match captures and class bodies are outside the property\'s grammar and are not generated',
         'callee and decoy bodies do nothing, so every TypeError raised by an execution is an argument-binding error',
+        'Model/Exec.v: a dict method call on **kwargs and handing **kwargs to other code MAY mutate it (over-approximation); '
+        'the execution comparison is therefore one-directional: wherever the model says untouched, the real callee receives the untouched object',
     ]
 
 
 def replay(ctx, data):
     r = data['replay']
+    if r.get('kind') == 'exec-grammar':
+        import ast
+        import execcheck
+        prog = execcheck.prog_from_coq(r['program'])
+        src0, _ = execcheck.render(prog, execcheck.paths_block(prog)[0])
+        try:
+            fi = execcheck.impl_flags(ast.parse(src0).body[0])
+        except Exception as e:  # noqa: BLE001
+            return 'walker raised ' + type(e).__name__
+        c = execcheck.impl_flag_violation(prog, fi)
+        return (c['problem'] + '\n' + c['source']) if c else None
     p = C06.prog_from_description(r['prog'], r['source'])
     if r['prog'].get('taint'):
         p.taint = tuple(r['prog']['taint'])
